@@ -200,7 +200,7 @@ def make_matrix(fam, n, r):
         U, _ = np.linalg.qr(r.standard_normal((n, n)))
         V, _ = np.linalg.qr(r.standard_normal((n, n)))
         s = np.exp(r.uniform(-1, 1, n))
-        s[-1] = s[0] * 10.0 ** r.uniform(-12, -6)
+        s[-1] = s[0] * 10.0 ** r.uniform(-15.5, -6)     # cond(A) 1e6 ... 1/eps
         return (U * s) @ V.T
     if fam == "zero":
         return np.zeros((n, n))
@@ -481,11 +481,18 @@ def _check(sh, kind, got, want, tol, case, tags, src_scale=None):
     """check_close with the relative error recorded as a tag (symptom for findings)."""
     import numpy as np
     t = dict(tags)
+    if tags.get("geti2_path") == "direct" and tags.get("smin_h", 0) > 0:
+        # diagnostic: the worst-conditioned A*h for which pyYeti's own accuracy guard let
+        # the direct solve for I2 stand (bounds the domain of the open direct-solve finding)
+        sh.worst("diag:cond(Ah)-when-geti2-direct", tags["norm1"] / tags["smin_h"])
     if not _defect_domain(tags):
         try:
             e = np.abs(np.asarray(got, float) - np.asarray(want, float))
+            tl = np.broadcast_to(np.asarray(tol, float), e.shape)
+            with np.errstate(all="ignore"):
+                q = np.where(tl > 0, e / tl, np.where(e == 0, 0.0, np.inf))
             sh.worst(kind + "[outside-known-defect-domain]",
-                     float(np.max(e / tol)) if e.size else 0.0)
+                     float(np.max(q)) if e.size else 0.0)
         except Exception:
             pass
     g = np.asarray(got, float)
@@ -612,6 +619,9 @@ def _run_expm(sh, params):
         bkinds = [("none", None, False), ("B", Bmat, False)]
         if n % 2 == 0:
             bkinds.append(("half", None, True))
+            if i % 3 == 0:
+                # documented: when B is given, `half` is ignored
+                bkinds.append(("B+half", Bmat, True))
         x0 = r.standard_normal(n)
         for order in (0, 1):
             for bkind, B, half in bkinds:
